@@ -63,6 +63,18 @@ CHECKS = {
         "Trusted: the reference producer; the expected-bits model of C05 for schemes with start-up loss.",
         "3 C15",
     ),
+    "C16": (
+        "runtime monitoring: offline history checker - update/compute/reset histories replayed against an integer reference counter (exhaustive to length 5/6, seeded to length 200), partition/permutation independence, one-shot values against exact fractions",
+        "All histories up to length 5 (quick) / 6 (thorough) over three unequal batches are enumerated; every permutation and 2-/3-way split of a data set; single difference at every position. Exploration with exhaustive history sub-space.",
+        "Trusted: Python Fraction arithmetic; 1 ulp float32 tolerance.",
+        "3 C16",
+    ),
+    "C17": (
+        "runtime monitoring: event-log checker over recording stages plus a schedule controller that FORCES every realisable ThreadPool completion order (hooked Future.set_result confirms the order actually observed) with order-sensitive aggregators",
+        "All feasible completion permutations for n<=5 branches and every worker count (each confirmed at Future.set_result), all add/remove histories to length 5, all truth assignments of <=4 branch conditions, feedback 1..5 rounds, MAC 1..4 users. Exploration, exhaustive over schedules.",
+        "Trusted: the harness-side Future.set_result wrapper; FIFO dispatch of ThreadPoolExecutor for the feasibility rule. A schedule that is not realised exactly is inconclusive, never a violation.",
+        "3 C17",
+    ),
 }
 
 ALL = [f"C{i:02d}" for i in range(1, 21)]
